@@ -124,6 +124,8 @@ def main():
         print(json.dumps(meta, indent=1)[:3000])
         return 0
     if a[0] == 'recheck':
+        fast = '--fast' in a          # run only the checks that caught the change last time (all of them if none does any more)
+        a = [x for x in a if x != '--fast']
         ids = a[1:] or sorted(os.listdir(SEEDED))
         tier = 'quick'
         missed = []
@@ -139,7 +141,15 @@ def main():
             wt = make_worktree()
             try:
                 sh(['git', '-C', wt, 'apply', os.path.join(d, 'patch.diff')])
-                meta['checks'] = run_checks(wt, meta.get('checked_with', [meta['breaks_property']]), meta.get('tier', tier))
+                allp = meta.get('checked_with', [meta['breaks_property']])
+                before = [k for k, v in sorted(meta.get('checks', {}).items()) if v.get('caught')]
+                if fast and before:
+                    got = run_checks(wt, before[:1], meta.get('tier', tier))
+                    if not any(c['caught'] for c in got.values()):
+                        got.update(run_checks(wt, [p_ for p_ in allp if p_ not in got], meta.get('tier', tier)))
+                    meta['checks'] = dict(meta.get('checks', {}), **got)
+                else:
+                    meta['checks'] = run_checks(wt, allp, meta.get('tier', tier))
             finally:
                 drop_worktree(wt)
             json.dump(meta, open(mp, 'w'), indent=1, sort_keys=True)
